@@ -45,6 +45,18 @@
  */
 #include "mc.h"
 
+/* The start-up probe of the stacked-endpoint families runs their closed
+ * executions outside any case: an oracle failure is then only noted. */
+static bool probe_mode, probe_failed;
+#define mc_fail(...)                                                           \
+    do {                                                                       \
+        if (probe_mode)                                                        \
+            probe_failed = true;                                               \
+        else                                                                   \
+            (mc_fail)(__VA_ARGS__);                                            \
+    } while (0)
+#define CUR_FAILED() (probe_mode ? probe_failed : mc.cur_failed)
+
 #include <limits.h>
 #include <sys/mman.h>
 
@@ -2319,6 +2331,241 @@ enc_sum(void)
 }
 
 /* ------------------------------------------------------------------------ */
+/* Histories on one prefix object: encode, refused encode, encode again      */
+/* ------------------------------------------------------------------------ */
+
+/* A prefix object is kept by its owner (a frame is set up once and sent, or
+ * re-sent, later).  "Lengths beyond the kind's maximum are refused before
+ * anything is emitted" -- for the entry points that emit *into a prefix
+ * object* the emission is what they put into the object: the prefix octets
+ * and the designation of the payload.  So a refused call must not leave the
+ * object describing a frame it did not describe before.  After a refused call
+ * two states are admitted (nothing else is said about a refused call, cf. the
+ * refused set-up of C18 that nulls the descriptor first):
+ *   (A) the frame of the last accepted call, as it was: the prefix view holds
+ *       the same octets, the payload view designates the same octets;
+ *   (B) no frame at all: the prefix view or the payload view is empty.
+ * Reported: a non-empty prefix view together with a non-empty payload view
+ * that are not the views of (A) -- e.g. the previous prefix in front of the
+ * refused, over-long message.  For chunks_use the payload list belongs to the
+ * caller (he sets it before the call), so only the prefix view is judged: as
+ * it was, or empty.
+ * Every history of <= H steps on ONE object over: an accepted call (3 buffer
+ * entry points x 2 payloads / chunk lists of 2 totals) and a refused call (same
+ * entry points x lengths maximum+1 and 2^64-1 through fake extents that are
+ * never dereferenced); every accepted call is held to the usual oracle. */
+struct objview {
+    bool frame;      /* both views non-empty and the prefix view lies inside the object's storage */
+    bool judgeable;  /* false: a non-empty prefix view outside the storage (not dereferenced) */
+    unsigned char pfx[VARINT_64BIT_MAX_OCTETS];
+    size_t npfx;
+    uintptr_t pay;
+    size_t npay;
+};
+
+static void
+objview_take(struct objview *v, const unsigned char *storage, const ByteBuffer *prefix, const ByteBuffer *payload)
+{
+    memset(v, 0, sizeof *v);
+    v->judgeable = true;
+    const bool pfx_empty = prefix->data == NULL || prefix->offset >= prefix->used;
+    const bool pay_empty = payload != NULL && (payload->data == NULL || payload->offset >= payload->used);
+    if (pfx_empty || pay_empty)
+        return;
+    if (prefix->data < storage || prefix->data > storage + VARINT_64BIT_MAX_OCTETS
+        || prefix->used > (size_t)(storage + VARINT_64BIT_MAX_OCTETS - prefix->data)) {
+        v->judgeable = false;
+        return;
+    }
+    v->frame = true;
+    v->npfx = prefix->used - prefix->offset;
+    memcpy(v->pfx, prefix->data + prefix->offset, v->npfx);
+    if (payload != NULL) {
+        v->pay = (uintptr_t)payload->data + payload->offset;
+        v->npay = payload->used - payload->offset;
+    }
+}
+
+static void
+judge_refused_obj(const char *ep, int k, uint64_t n, const struct objview *before, const struct objview *after, int rc,
+                  const unsigned char *blk0)
+{
+    if (rc >= 0 || !after->judgeable || !after->frame)
+        return; /* an accepting return is reported by judge_obj; (B) */
+    if (before->judgeable && before->frame && after->npfx == before->npfx && memcmp(after->pfx, before->pfx, after->npfx) == 0
+        && after->pay == before->pay && after->npay == before->npay)
+        return; /* (A) */
+    char what[200];
+    if (before->frame && after->npfx == before->npfx && memcmp(after->pfx, before->pfx, after->npfx) == 0)
+        snprintf(what, sizeof what, "the previous frame's prefix in front of a payload view of %zu octets that is not the previous payload%s",
+                 after->npay, (blk0 && after->npay == (size_t)n) ? " (the refused message)" : "");
+    else
+        snprintf(what, sizeof what, "a prefix view of %zu octets that the object did not hold before the call", after->npfx);
+    mc_fail(clause(ep, "refuses-overmax"), "length %llu beyond the %s maximum was refused (rc=%d), but the call left the prefix object describing %s: something was emitted into the object before the refusal",
+            (unsigned long long)n, kname[k], rc, what);
+}
+
+#define OH_LETTERS 12
+static void
+objhist_letter(int l, char *out, size_t n)
+{
+    static const char *const e[3] = { "memory_encode", "buffer_encode", "buffer_encode_n" };
+    if (l < 6)
+        snprintf(out, n, "%s(%d octets)", e[l % 3], l < 3 ? 1 : 5);
+    else
+        snprintf(out, n, "%s(%s: refused)", e[l % 3], l < 9 ? "max+1 octets" : "2^64-1 octets");
+}
+
+static void
+run_objhist(int k, const unsigned char *h, int hl)
+{
+    unsigned char *blk[4];
+    for (int b = 0; b < 4; ++b) {
+        blk[b] = mc_exact(REALBLK);
+        for (size_t i = 0; i < REALBLK; ++i)
+            blk[b][i] = pat(40u * (size_t)b + i);
+    }
+    LengthPrefixBuffer *lpb = mc_exact(sizeof *lpb);
+    memset(lpb, 0, sizeof *lpb);
+    for (int i = 0; i < hl && !mc.cur_failed; ++i) {
+        const int l = h[i];
+        const enum ep ep = l % 3 == 0 ? EP_MEM_ENC : l % 3 == 1 ? EP_BUF_ENC : EP_BUF_ENC_N;
+        const bool isn = ep == EP_BUF_ENC_N;
+        const char *name = epname[ep];
+        unsigned char *mem = blk[i % 4];
+        uint64_t n;
+        size_t off, used, size;
+        if (l < 6) {
+            n = l < 3 ? 1 : 5;
+            off = 1u + (size_t)(i % 3);
+            used = off + n + (isn ? 2u : 0u);
+            size = REALBLK;
+        } else {
+            n = l < 9 ? (ref_max(k) + 1u) : UINT64_MAX;
+            const bool roomy = n <= SIZE_MAX - 32u;
+            off = roomy ? 2 : 0;
+            used = off + n + ((roomy && isn) ? 3 : 0);
+            size = used + (roomy ? 5 : 0);
+        }
+        ByteBuffer b = { mem, size, used, off };
+        struct objview before, after;
+        objview_take(&before, lpb->prefix_, &lpb->prefix, &lpb->payload);
+        int rc;
+        mc_trans(1);
+        if (ep == EP_MEM_ENC)
+            rc = X_memory_encode(k, lpb, mem + off, (size_t)n);
+        else if (ep == EP_BUF_ENC)
+            rc = X_buffer_encode(k, lpb, &b);
+        else
+            rc = X_buffer_encode_n(k, lpb, &b, (size_t)n);
+        mc_log("step %d: %s n=%llu", i, name, (unsigned long long)n);
+        if (judge_obj(name, k, n, mem + off, lpb->prefix_, &lpb->prefix, &lpb->payload, rc)) {
+            if (isn)
+                check_advance(name, &b, mem, size, used, off, (size_t)n);
+        } else if (!mc.cur_failed) {
+            if (isn)
+                check_position(name, &b, mem, size, used, off, n);
+            objview_take(&after, lpb->prefix_, &lpb->prefix, &lpb->payload);
+            mc_log("object after the refused call: %s", !after.judgeable ? "prefix view outside the object (not judged)"
+                                                        : after.frame    ? "both views non-empty"
+                                                                         : "a view is empty");
+            if (!mc.cur_failed)
+                judge_refused_obj(name, k, n, &before, &after, rc, mem);
+        }
+    }
+    free(lpb);
+    for (int b = 0; b < 4; ++b)
+        free(blk[b]);
+}
+
+/* chunks_use: letters 0,1 accepted (totals 3 and 6), 2,3 refused (max+1, 2^64-1 as two fake extents) */
+static void
+run_objhist_chunks(int k, const unsigned char *h, int hl)
+{
+    unsigned char *blk[4];
+    for (int b = 0; b < 4; ++b) {
+        blk[b] = mc_exact(REALBLK);
+        for (size_t i = 0; i < REALBLK; ++i)
+            blk[b][i] = pat(40u * (size_t)b + i);
+    }
+    LengthPrefixChunks *lpc = mc_exact(sizeof *lpc);
+    memset(lpc, 0, sizeof *lpc);
+    const char *name = epname[EP_CHUNKS_USE];
+    for (int i = 0; i < hl && !mc.cur_failed; ++i) {
+        const int l = h[i];
+        const uint64_t n = l == 0 ? 3 : l == 1 ? 6 : l == 2 ? ref_max(k) + 1u : UINT64_MAX;
+        /* inactive(5) | n-2 octets | 2 octets */
+        ByteBuffer arr[3] = { { blk[0], 8, 6, 1 }, { blk[1], 1 + (size_t)(n - 2), 1 + (size_t)(n - 2), 1 }, { blk[3], 4, 2, 0 } };
+        struct objview before, after;
+        objview_take(&before, lpc->prefix_, &lpc->prefix, NULL);
+        lpc->payload = (ByteChunks){ 3, 1, arr }; /* the caller's list */
+        mc_trans(1);
+        const int rc = X_chunks_use(k, lpc);
+        mc_log("step %d: %s total=%llu", i, name, (unsigned long long)n);
+        if (!judge_obj(name, k, n, NULL, lpc->prefix_, &lpc->prefix, NULL, rc) && !mc.cur_failed) {
+            objview_take(&after, lpc->prefix_, &lpc->prefix, NULL);
+            judge_refused_obj(name, k, n, &before, &after, rc, NULL);
+        }
+    }
+    free(lpc);
+    for (int b = 0; b < 4; ++b)
+        free(blk[b]);
+}
+
+static void
+enc_objhist(int H)
+{
+    for (int k = 0; k < NKINDS; ++k) {
+        int npow = OH_LETTERS;
+        for (int hl = 1; hl <= H; ++hl, npow *= OH_LETTERS)
+            for (int code = 0; code < npow; ++code) {
+                unsigned char h[8];
+                int x = code, nref = 0, firstref = -1;
+                for (int i = 0; i < hl; ++i, x /= OH_LETTERS) {
+                    h[i] = (unsigned char)(x % OH_LETTERS);
+                    if (h[i] >= 6) {
+                        nref++;
+                        if (firstref < 0)
+                            firstref = i;
+                    }
+                }
+                if (!mc_would_run()) {
+                    mc_skip_case();
+                    continue;
+                }
+                char d[8 * 48], one[48];
+                size_t dl = 0;
+                d[0] = 0;
+                for (int i = 0; i < hl; ++i) {
+                    objhist_letter(h[i], one, sizeof one);
+                    dl += (size_t)snprintf(d + dl, sizeof d - dl, "%s%s", i ? "; " : "", one);
+                }
+                if (!mc_case("obj-hist k=%s one LengthPrefixBuffer: %s", kname[k], d))
+                    continue;
+                run_objhist(k, h, hl);
+                mc_end(nref > 0, nref == 0 ? "objhist-no-refusal" : firstref == 0 ? "objhist-refused-first" : "objhist-refused-after-accept");
+            }
+        npow = 4;
+        for (int hl = 1; hl <= H + 1; ++hl, npow *= 4)
+            for (int code = 0; code < npow; ++code) {
+                unsigned char h[8];
+                int x = code, nref = 0;
+                char d[64];
+                for (int i = 0; i < hl; ++i, x /= 4) {
+                    h[i] = (unsigned char)(x % 4);
+                    nref += h[i] >= 2;
+                    d[i] = "36MX"[h[i]];
+                }
+                d[hl] = 0;
+                if (!mc_case("obj-hist k=%s one LengthPrefixChunks: chunks_use with list totals %s (3, 6 octets; M = max+1, X = 2^64-1: refused)", kname[k], d))
+                    continue;
+                run_objhist_chunks(k, h, hl);
+                mc_end(nref > 0, nref ? "objhist-chunks-refusal" : "objhist-no-refusal");
+            }
+    }
+}
+
+/* ------------------------------------------------------------------------ */
 /* Aliasing between the arguments of one call                                */
 /* ------------------------------------------------------------------------ */
 
@@ -2335,17 +2582,22 @@ enc_sum(void)
  *   - decoders whose source *reads the unread content of the very ByteBuffer*
  *     the payload is appended to (in-place de-framing), for all three
  *     decoders (decode_source_to_sink: source and sink on one ByteBuffer).
- * Sink and source are harness drivers that use the descriptor the obvious way
- * (append at `used`, read at `offset`); they are environment, their
- * bookkeeping in the descriptor has to survive the call like that of any
- * other driver object.
+ * What is aliased is the MEMORY.  Sink and source are harness drivers with a
+ * ByteBuffer descriptor *of their own* over that memory (append at its `used`,
+ * read at its `offset`); the descriptor that is passed as the call's argument
+ * is a second object, which nobody but the library touches during the call (a
+ * library that works on a local copy of its argument descriptor and writes it
+ * back is legitimate: no sentence says the argument may change under the
+ * library's hands).  Between calls the harness carries the fill mark / read
+ * position from one descriptor over to the other, like a caller who knows what
+ * his driver did.
  * Not admitted (no sentence covers them; the repository's code does not
  * survive them either, and could not without extra storage): a sink that
  * appends to one of the chunks of the list being framed (the list's total is
  * a moving target), a prefix object whose own payload view is the buffer
  * argument, a decode destination that overlaps the unread stream. */
 struct bufdrv {
-    ByteBuffer *b;
+    ByteBuffer *b; /* the driver's own descriptor, never an argument of the call under test */
     long calls, refused;
 };
 
@@ -2409,9 +2661,11 @@ run_alias_enc(int k, enum ep ep, int sk, size_t lead, size_t msg, const size_t *
     unsigned char *mem = mc_exact(size);
     for (size_t i = 0; i < size; ++i)
         mem[i] = i < used0 ? pat(i) : old(i);
-    ByteBuffer *b = mc_exact(sizeof *b);
+    ByteBuffer *b = mc_exact(sizeof *b);   /* the argument of the call */
+    ByteBuffer *sb = mc_exact(sizeof *sb); /* the sink driver's descriptor over the same memory */
     *b = (ByteBuffer){ mem, size, used0, lead };
-    struct bufdrv d = { b, 0, 0 };
+    *sb = *b;
+    struct bufdrv d = { sb, 0, 0 };
     Sink s;
     if (sk)
         octet_sink_init(&s, bd_put_octet, &d);
@@ -2421,9 +2675,12 @@ run_alias_enc(int k, enum ep ep, int sk, size_t lead, size_t msg, const size_t *
     size_t consumed = 0;
     for (size_t i = 0; i < ns && !mc.cur_failed; ++i) {
         const size_t n = slices[i];
-        const size_t off = lead + consumed, before = b->used;
+        const size_t off = lead + consumed, before = sb->used;
         unsigned char *want = mc_exact_copy(mem + off, n);
         ssize_t rc;
+        /* the caller knows what his sink appended so far */
+        *b = (ByteBuffer){ mem, size, before, off };
+        sb->offset = off;
         mc_trans(1);
         if (ep == EP_MEM_SINK)
             rc = X_memory_to_sink(k, &s, mem + off, n);
@@ -2431,26 +2688,19 @@ run_alias_enc(int k, enum ep ep, int sk, size_t lead, size_t msg, const size_t *
             rc = X_buffer_to_sink(k, &s, b);
         else
             rc = X_buffer_to_sink_n(k, &s, b, n);
-        mc_log("%s call %zu (n=%zu): rc=%zd buffer after: used=%zu offset=%zu, %ld sink calls, %ld refused for lack of room", name, i, n,
-               rc, b->used, b->offset, d.calls, d.refused);
-        if (b->data != mem || b->size != size || b->used < before || b->used > size) {
-            /* what the sink appended is the buffer's content behind the old fill mark: a fill mark that
-             * went backwards (or a descriptor that was re-pointed) loses octets the sink was given */
-            mc_fail(clause(name, "payload"), "sink appends to the source buffer: after call %zu the buffer has used=%zu (before the call: %zu, size %zu): what the sink stored is not in the buffer's content any more",
-                    i, b->used, before, size);
-        } else {
+        mc_log("%s call %zu (n=%zu): rc=%zd argument after: used=%zu offset=%zu; sink's fill mark %zu -> %zu, %ld sink calls, %ld refused for lack of room",
+               name, i, n, rc, b->used, b->offset, before, sb->used, d.calls, d.refused);
+        {
+            /* what the sink appended: the memory behind its old fill mark (the driver
+             * descriptor is the harness's own, the library cannot reach it) */
             struct rec r;
             memset(&r, 0, sizeof r);
             r.buf = mem + before;
-            r.n = b->used - before;
+            r.n = sb->used - before;
             r.cap = size - before;
             r.overflow = (size_t)d.refused; /* never with a conforming encoder: room was made for every frame */
-            if (judge_sink(name, k, n, want, &r, rc) && ep == EP_BUF_SINK_N) {
-                /* advanced by n; the fill mark is the sink's */
-                if (b->offset != off + n)
-                    mc_fail(clause(name, "advances"), "buffer after the call: offset=%zu, expected %zu (advanced by n=%zu)", b->offset,
-                            off + n, n);
-            }
+            if (judge_sink(name, k, n, want, &r, rc) && ep == EP_BUF_SINK_N)
+                check_advance(name, b, mem, size, before, off, n); /* advanced by n, otherwise as it was handed in */
         }
         free(want);
         if (ep == EP_BUF_SINK_N)
@@ -2458,6 +2708,7 @@ run_alias_enc(int k, enum ep ep, int sk, size_t lead, size_t msg, const size_t *
     }
     mc_log_hex("buffer", mem, size < 48 ? size : 48);
     free(b);
+    free(sb);
     free(mem);
 }
 
@@ -2529,9 +2780,16 @@ run_alias_dec(int k, enum dec d, enum srckind sk, size_t lead, const size_t *len
     for (size_t f = 0; f < nf; ++f)
         w += put_frame(mem + w, k, lens[f], f);
     unsigned char *orig = mc_exact_copy(mem, used0);
-    ByteBuffer *b = mc_exact(sizeof *b);
+    /* three descriptors over the one memory: the source driver's (read position;
+     * its fill mark is the end of the stream), the sink driver's (fill mark;
+     * decode_source_to_sink) and the one passed as the argument of
+     * buffer_from_source, which only the library touches during the call */
+    ByteBuffer *b = mc_exact(sizeof *b), *rb = mc_exact(sizeof *rb), *wb = mc_exact(sizeof *wb);
     *b = (ByteBuffer){ mem, size, used0, lead };
-    struct bufdrv rd = { b, 0, 0 }, wr = { b, 0, 0 };
+    *rb = *b;
+    *wb = *b;
+    struct bufdrv rd = { rb, 0, 0 }, wr = { wb, 0, 0 };
+    size_t fill = used0; /* fill mark of the buffer as the caller knows it */
     Source src;
     if (sk == SRC_OCTET)
         octet_source_init(&src, bd_get_octet, &rd);
@@ -2541,20 +2799,29 @@ run_alias_dec(int k, enum dec d, enum srckind sk, size_t lead, const size_t *len
     chunk_sink_init(&snk, bd_put_chunk, &wr);
     const char *name = decname[d];
     for (size_t f = 0; f < nf; ++f) {
-        const size_t len = lens[f], before = b->used;
+        const size_t len = lens[f], before = fill;
         ssize_t rc;
+        /* the caller knows what his source consumed and what was appended so far */
+        *b = (ByteBuffer){ mem, size, before, rb->offset };
+        wb->used = before;
+        bool desc_ok = true;
         mc_trans(1);
         if (d == D_MEM) {
             /* destination = the free space of that buffer; the caller does the bookkeeping */
             rc = X_memory_from_source(k, &src, mem + before, size - before);
-            if (rc > 0 && (size_t)rc <= size - before && b->used == before)
-                b->used += (size_t)rc;
+            if (rc > 0 && (size_t)rc <= size - before)
+                fill = before + (size_t)rc;
         } else if (d == D_BUF) {
             rc = X_buffer_from_source(k, &src, b);
+            desc_ok = b->data == mem && b->size == size && b->used <= size;
+            if (desc_ok)
+                fill = b->used;
         } else {
             rc = X_decode_source_to_sink(k, &src, &snk);
+            fill = wb->used;
         }
-        mc_log("%s frame %zu (%zu octets): rc=%zd buffer after: used=%zu offset=%zu", name, f, len, rc, b->used, b->offset);
+        mc_log("%s frame %zu (%zu octets): rc=%zd fill mark %zu -> %zu, source's read position %zu", name, f, len, rc, before, fill,
+               rb->offset);
         if (rd.refused) {
             mc_fail("C13/hang", "%s: source call budget exceeded", name);
             break;
@@ -2565,18 +2832,20 @@ run_alias_dec(int k, enum dec d, enum srckind sk, size_t lead, const size_t *len
                         size - before, len, rc, -ENOMEM);
             break;
         }
-        const bool kept = b->data == mem && b->size == size && memcmp(mem, orig, used0) == 0;
-        if (rc < 0 || (d != D_SINK && (size_t)rc != len) || !kept || b->used != before + len
+        const bool kept = desc_ok && memcmp(mem, orig, used0) == 0;
+        if (rc < 0 || (d != D_SINK && (size_t)rc != len) || !kept || fill != before + len
             || !payload_is(mem + before, len, f)) {
             mc_fail(clause(name, d == D_BUF ? "appends" : "returns-payload"),
                     "source reads the destination buffer's unread content: frame %zu of %zu (payload %zu octets) rc=%zd, fill mark %zu -> %zu, content before the old fill mark %s, payload %s behind it",
-                    f, nf, len, rc, before, b->used, kept ? "kept" : "changed",
-                    (b->used >= before + len && b->used <= size && payload_is(mem + before, len, f)) ? "is" : "is not");
+                    f, nf, len, rc, before, fill, kept ? "kept" : "changed",
+                    (fill >= before + len && fill <= size && payload_is(mem + before, len, f)) ? "is" : "is not");
             break;
         }
     }
     mc_log_hex("buffer", mem, size < 48 ? size : 48);
     free(b);
+    free(rb);
+    free(wb);
     free(orig);
     free(mem);
 }
@@ -2629,7 +2898,18 @@ dec_alias(size_t L)
  *            handed (pointer and count, as handed); source driver: what it
  *            hands out it first decodes from a lower stream that carries the
  *            outer stream in pieces, one frame per piece.
- * Both calls are judged by the oracle of their entry point. */
+ * Both calls are judged by the oracle of their entry point.
+ *
+ * That demands RE-ENTRANCY of the library, on which the statement has no
+ * sentence: an implementation that keeps, say, the prefix it is emitting in a
+ * `static` object (small stacks) frames every payload correctly for every sink
+ * that does not call back into the library, and garbles the outer frame when
+ * one does.  So the families are gated like dec-huge: a start-up probe
+ * (reent_probe) runs the small stacked executions once with the lower calls
+ * and, where that fails, once without them; if an execution is only wrong when
+ * a lower call is made from inside a driver, the library is not re-entrant, the
+ * reent-* cases are numbered but not run (class reent-not-run, a cap: the run
+ * is not called exhaustive, exit 0) -- never a violation. */
 enum iop { I_MEM_SINK, I_BUF_SINK, I_BUF_SINK_N, I_CHUNKS_SINK, I_MEM_ENC, I_BUF_ENC, I_BUF_ENC_N, I_CHUNKS_USE,
            I_MEM_DEC, I_BUF_DEC, I_SINK_DEC, I_NOPS };
 static const char *const iopname[I_NOPS] = { "memory_to_sink", "buffer_to_sink", "buffer_to_sink_n", "chunks_to_sink",
@@ -2919,7 +3199,7 @@ run_reent_enc(int k, enum ep ep, int style, size_t len, const struct inner *in)
     const bool nested = ss.in.done > 0;
     if (ss.over)
         mc_fail("C13/hang", "%s: sink call budget of %ld exceeded", name, ss.budget);
-    else if (!mc.cur_failed) {
+    else if (!CUR_FAILED()) {
         if (judge_sink(name, k, len, pay, &ss.store, rc) && ep == EP_BUF_SINK_N)
             check_advance(name, &b, mem, len + 4u, len + 3u, 1, len);
     }
@@ -3154,6 +3434,109 @@ struct reent_outer {
     size_t len;
 };
 
+/* ---- is the library re-entrant at all? ------------------------------------ */
+static bool reent_runnable = true;
+
+static void
+reent_not_run(void)
+{
+    mc_log("not run: the start-up probe found an execution that is only wrong when a driver calls the library again (the library is not re-entrant; the statement does not say it is)");
+    mc_end(false, "reent-not-run");
+}
+
+struct reent_probe {
+    struct reent_outer o;
+    bool enc;
+    size_t piece;
+    long runs;
+};
+
+static bool
+reent_probe_run(const struct reent_probe *p, const struct inner *in, size_t piece)
+{
+    probe_failed = false;
+    if (p->enc)
+        (void)run_reent_enc(p->o.k, p->o.ep, p->o.style, p->o.len, in);
+    else
+        (void)run_reent_dec(p->o.k, p->o.d, p->o.style, p->o.len, in, piece, p->o.side);
+    return !probe_failed;
+}
+
+static void
+reent_probe_case(const struct inner *in, void *arg)
+{
+    struct reent_probe *p = arg;
+    if (!reent_runnable)
+        return; /* decided */
+    p->runs++;
+    if (reent_probe_run(p, in, p->piece))
+        return;
+    /* wrong with the lower calls: and without them? */
+    struct inner quiet = *in;
+    quiet.trigger = INT_MAX; /* no driver call has that index: the lower call is never made */
+    if (reent_probe_run(p, &quiet, 0))
+        reent_runnable = false;
+}
+
+/* Every outer entry point x kind x driver style (lengths 3 and 300) with every
+ * lower entry point x kind made before / after the driver's job in each of its
+ * first eight calls (own payload of 2 octets; tunnelled), and the tunnelling
+ * sources.  Runs outside any case, in every process, before the first reent
+ * case is numbered; nothing it finds is reported. */
+static void
+reent_probe(void)
+{
+    const bool was_active = mc.active;
+    mc.active = false; /* no log lines, no transition counts */
+    probe_mode = true;
+    static const size_t PL[2] = { 3, 300 }, OWN[1] = { 2 };
+    static const enum ep eps[4] = { EP_MEM_SINK, EP_BUF_SINK, EP_BUF_SINK_N, EP_CHUNKS_SINK };
+    struct reent_probe p;
+    memset(&p, 0, sizeof p);
+    p.enc = true;
+    for (p.o.k = 0; reent_runnable && p.o.k < NKINDS; ++p.o.k)
+        for (int e = 0; e < 4; ++e)
+            for (p.o.style = 0; p.o.style < 3; ++p.o.style)
+                for (int li = 0; li < 2; ++li) {
+                    p.o.ep = eps[e];
+                    p.o.len = PL[li];
+                    for_inner(true, 0, OWN, 1, reent_probe_case, &p);
+                }
+    p.enc = false;
+    for (p.o.k = 0; reent_runnable && p.o.k < NKINDS; ++p.o.k)
+        for (int d = 0; d < 3; ++d)
+            for (p.o.style = 0; p.o.style < 3; ++p.o.style)
+                for (int li = 0; li < 2; ++li) {
+                    p.o.d = (enum dec)d;
+                    p.o.len = PL[li];
+                    if (p.o.len > ref_max(p.o.k))
+                        continue;
+                    for (p.o.side = 0; p.o.side < (d == D_SINK ? 2 : 1); ++p.o.side) {
+                        if (p.o.side && p.o.style == 1)
+                            continue;
+                        for_inner(p.o.side != 0, 0, OWN, 1, reent_probe_case, &p);
+                    }
+                    p.o.side = 0;
+                    static const size_t PIECE[3] = { 1, 2, 5 };
+                    for (int op = I_MEM_DEC; op <= I_SINK_DEC; ++op)
+                        for (int ik = 0; ik < NFLENP; ++ik)
+                            for (int pi = 0; pi < 3; ++pi) {
+                                struct inner in;
+                                memset(&in, 0, sizeof in);
+                                in.op = op;
+                                in.k = ik;
+                                p.piece = PIECE[pi];
+                                reent_probe_case(&in, &p);
+                                p.piece = 0;
+                            }
+                }
+    probe_mode = false;
+    probe_failed = false;
+    mc.active = was_active;
+    if (!reent_runnable)
+        mc_cap("the library is not re-entrant (an execution is only wrong when a sink/source driver calls the library again): reent-* cases not run");
+}
+
 static void
 reent_enc_case(const struct inner *in, void *arg)
 {
@@ -3168,6 +3551,10 @@ reent_enc_case(const struct inner *in, void *arg)
     inner_desc(&probe, d, sizeof d);
     if (!mc_case("reent-enc k=%s ep=%s sink=%s len=%zu; its driver calls %s", kname[o->k], epname[o->ep], stylename[o->style], o->len, d))
         return;
+    if (!reent_runnable) {
+        reent_not_run();
+        return;
+    }
     const bool nested = run_reent_enc(o->k, o->ep, o->style, o->len, in);
     mc_end(nested, !nested ? "reent-not-reached" : in->own ? "reent-enc" : "reent-enc-tunnel");
 }
@@ -3187,6 +3574,10 @@ reent_dec_case(const struct inner *in, void *arg)
     if (!mc_case("reent-dec k=%s dec=%s %s=%s len=%zu; its driver calls %s", kname[o->k], decname[o->d],
                  o->side ? "sink" : "source", stylename[o->style], o->len, d))
         return;
+    if (!reent_runnable) {
+        reent_not_run();
+        return;
+    }
     const bool nested = run_reent_dec(o->k, o->d, o->style, o->len, in, 0, o->side);
     mc_end(nested, !nested ? "reent-not-reached" : o->side ? "reent-dec-sink" : "reent-dec");
 }
@@ -3201,6 +3592,7 @@ reentrancy(bool T)
     static const enum ep eps[4] = { EP_MEM_SINK, EP_BUF_SINK, EP_BUF_SINK_N, EP_CHUNKS_SINK };
     struct reent_outer o;
     memset(&o, 0, sizeof o);
+    reent_probe();
     for (o.k = 0; o.k < NKINDS; ++o.k)
         for (int e = 0; e < 4; ++e)
             for (o.style = 0; o.style < 3; ++o.style)
@@ -3232,6 +3624,10 @@ reentrancy(bool T)
                                              kname[o.k], decname[d], stylename[o.style], o.len, iopname[op], kname[ik],
                                              ((op + ik) & 1) ? "octet" : "chunk", PIECE[pi]))
                                     continue;
+                                if (!reent_runnable) {
+                                    reent_not_run();
+                                    continue;
+                                }
                                 struct inner in;
                                 memset(&in, 0, sizeof in);
                                 in.op = op;
@@ -3270,7 +3666,8 @@ main(int argc, char **argv)
     streams_octet(T ? 16 : 12);
     dec_alias(T ? 5 : 3);
     reentrancy(T);
-    char bound[3200];
+    enc_objhist(T ? 4 : 3);
+    char bound[3800];
     snprintf(bound, sizeof bound,
              "6 kinds + the varint kind through the lenp_* entry points of the header (all families); encoders: buffer states size<=%d x n<=rest, chunk lists <=%d chunks (rest 0..3, lead/slack 0..1, active<=%d), "
              "lengths 1..1100 + 65534..65536, maxima 2^31,2^32,SSIZE_MAX +-1 via fake buffers (also into a sink whose first call takes "
@@ -3291,9 +3688,12 @@ main(int argc, char **argv)
              "(same lengths; source of the three styles; decode_source_to_sink also with a stacked sink) with a driver that calls one of the 11 entry points "
              "(6 kinds, own payload of %s octets, or - sink drivers, the four sink encoders - exactly what it was handed) on lower endpoints before or after "
              "its own job in its driver call 0..%d or in each of the first 8; sources that decode what they hand out from a lower stream carrying the outer "
-             "stream in frames of 1, 2, 5 octets (3 decoders x 6 kinds)",
+             "stream in frames of 1, 2, 5 octets (3 decoders x 6 kinds) - stacked endpoints only if a start-up probe finds the library re-entrant; "
+             "prefix-object histories: every sequence of <= %d calls on one LengthPrefixBuffer over {memory_encode, buffer_encode, buffer_encode_n} x "
+             "{1, 5 octets accepted; maximum+1, 2^64-1 octets refused} and of <= %d chunks_use calls on one LengthPrefixChunks (list totals 3, 6, maximum+1, "
+             "2^64-1), the object inspected after every refused call",
              T ? 8 : 6, T ? 4 : 3, T ? 3 : 2, T ? 6 : 4, T ? 5 : 3, T ? 3 : 2, T ? 6 : 4, T ? 8 : 6, T ? 8 : 6, T ? 16 : 12, T ? 13 : 10,
-             T ? 6 : 4, T ? 5 : 3, T ? "1, 2, 3, 130, 300, 65535" : "1, 3, 300", T ? "1, 2, 200, 300" : "2, 200", T ? 3 : 1);
+             T ? 6 : 4, T ? 5 : 3, T ? "1, 2, 3, 130, 300, 65535" : "1, 3, 300", T ? "1, 2, 200, 300" : "2, 200", T ? 3 : 1, T ? 4 : 3, T ? 5 : 4);
     mc_finish(true, bound);
     return 0;
 }
